@@ -32,6 +32,23 @@ Definition r4_tst_same (e : exp) : option exp :=
   end.
 Definition branches_identical (e : exp) : bool := match e with ETst _ l r _ _ => same_sf l r | _ => false end.
 
+(* the same structurally, modulo sign flags *)
+(* comp.restruct: consecutive constant parts of a composition are gathered into one constant (parts as a right-nested
+   ECat, least significant part first):  { a[na] | b[nb] | rest } -> { (b << na | a)[na+nb] | rest } *)
+Fixpoint restruct (e : exp) : exp :=
+  match e with
+  | ECat lo hi n sf =>
+      let hi' := restruct hi in
+      match lo, hi' with
+      | ECst a na _, ECst b nb _ => ECst (a + b * 2 ^ na) (na + nb) false
+      | ECst a na _, ECat (ECst b nb _) rest _ _ => ECat (ECst (a + b * 2 ^ na) (na + nb) false) rest n sf
+      | _, _ => ECat lo hi' n sf
+      end
+  | _ => e
+  end.
+
+Definition check_restruct (c : exp * exp) : bool := let '(e, out) := c in same (restruct e) out.
+
 Definition rules2 : list (exp -> option exp) := [ r3_slc_push; r4_tst_const; r4_tst_same ].
 
 Definition check_rule2 (c : rule_case) : bool :=
